@@ -216,6 +216,9 @@ func docFeatSuffix(feat []string, evHaz []string) string {
 	if has(evHaz, "line-reversal") {
 		return "+line-reversal"
 	}
+	if has(evHaz, "pct-viewbox") {
+		return "+pct-viewbox"
+	}
 	for _, f := range []string{"vb-origin", "aspect", "evenodd-differs"} {
 		if has(feat, f) {
 			return "+" + f
